@@ -78,12 +78,12 @@ func ruleQRTables(c *Ctx) {
 				want := intBits(int64(word), 15)
 				c.Check(R1, key, e.Pos, got == want, want, got)
 			}
-			if row != nil && len(row.Map) != 8 {
-				c.Check(R1, fmt.Sprintf("qr.formatInfos[%s]/len", l), row.Pos, false, "8 masks", fmt.Sprint(len(row.Map)))
+			if row != nil && row.Entries() != 8 {
+				c.Check(R1, fmt.Sprintf("qr.formatInfos[%s]/len", l), row.Pos, false, "8 masks", fmt.Sprint(row.Entries()))
 			}
 		}
-		if len(fi.Map) != 4 {
-			c.Check(R1, "qr.formatInfos/len", fi.Pos, false, "4 levels", fmt.Sprint(len(fi.Map)))
+		if fi.Entries() != 4 {
+			c.Check(R1, "qr.formatInfos/len", fi.Pos, false, "4 levels", fmt.Sprint(fi.Entries()))
 		}
 	}
 
